@@ -14,6 +14,11 @@ CLAIMS = {
    text="For each of the 115 command structures the encoder's and the decoder's wire layouts are extracted from the code and compared atom by atom (same fields, order, width, byte order, nested type), the decoder's offsets are checked to be the running sum of the widths before them, every declared wire field must appear once in each direction in declaration order with the width of its type, AndX commands must consume the AndX block first, and a nested decoder must be handed a window at least as large as what it consumes. These are structural necessary conditions of the round trip that hold for every field value at once; value-level consistency of length fields and the inverse-ness of nested types are not decided here.",
    note=TRUST + " Additional for C04: encoding/binary accessors have their documented layouts; Parameters packs bytes into words and back symmetrically (C06); only the idioms listed in DESIGN.md §3 E2 are recognised — an unrecognised idiom is reported as undecided, never passed.",
    design="§3 E2, §4 C04"),
+ "C11": dict(
+   technique="static analysis: exact bit-lane provenance of the 4-byte session header over go/ssa, dominating-guard refusal proof (E1), and I/O-discipline rules on Send/Receive",
+   text="For all payload lengths at once: each of the 32 header bits handed to conn.Write is shown to be the SESSION_MESSAGE type, bit 16 of len(data) in bit 0 of the flags byte and the low 16 length bits big-endian, and the length Receive allocates is shown to be built from exactly the mirror header bits; a dominating guard must refuse payloads whose length does not fit the bits carried; every read is io.ReadFull/ReadAtLeast with its error tested and every success return is dominated by the success of both reads, returning the buffer of exactly the decoded length; header and payload reach the connection in one Write. Behaviour under arbitrary TCP segmentation or a cut connection follows from the trusted io.ReadFull contract and is not explored.",
+   note=TRUST + " Additional for C11: io.ReadFull/io.ReadAtLeast contract (all-or-error); net.Conn.Write atomicity for a single call; concurrent Sends are out of scope.",
+   design="§4 C11"),
  "C19": dict(
    technique="static analysis: typed-AST table rules (enum coverage, name uniqueness, flag-family single bits, decomposer and predicate shape, deterministic order) over go/types constant values",
    text="Every declared constant of every bound enum/flag family (about 1800 NT status rows, command and sub-command codes, flag words) is enumerated from the type-checked source: each must be a key of its name table / have a case, names must be non-empty, non-placeholder and unique, flag constants single distinct bits, each decomposer test must test one constant against itself and append that constant's name exactly once in a deterministic order, each predicate must depend on exactly its own bit, and every non-success NT status must map to a non-nil error whose text carries the numeric code. Exhaustive over table rows by construction, which is what the property quantifies over.",
